@@ -10,6 +10,7 @@
   still to receive.  `f.s.out` = bytes the stream has accepted.
 -/
 import PV.Model.BufFileLemmas
+import PV.Model.BufFileULemmas
 namespace PV.Props.C42
 open PV PV.BufFile
 
@@ -613,6 +614,89 @@ example :
 example :
     let r := run chanOps (demoFile "wb" 1) [.write "xy\nz".toUTF8.toList]
     r.1.s.out = "xy\n".toUTF8.toList ∧ r.1.wbuf = "z".toUTF8.toList := by
+  decide +kernel
+
+/-! ## universal-newline mode ('U'): line structure does not depend on the chunking
+
+  `upend u` = what a U-mode caller has still to receive: read-ahead ++ undelivered stream, minus a leading LF
+  when the previous line ended in a bare CR that was the last byte available (`_at_trailing_cr`).
+  `uSplit p` = (first line of `p` with its CR / CRLF / LF terminator translated to LF, rest of `p`). -/
+
+/-- `readline()` in U mode returns the first universal-newline line of what is pending and leaves exactly the
+    rest pending — for every chunking, wherever a CR happened to be the last byte of a chunk. -/
+theorem universal_readline_exact (u : UF Chan) (hb : 1 ≤ u.f.bufsize) (hc : u.f.closed = false) (hr : u.f.rd = true) :
+    (readlineU chanOps u none).2 = .ok (uSplit (upend u)).1 ∧
+    upend (readlineU chanOps u none).1 = (uSplit (upend u)).2 :=
+  ⟨(readlineU_chan u hb hc hr).1, (readlineU_chan u hb hc hr).2.1⟩
+
+/-- a line returned in U mode ends in LF and contains no other CR or LF, or it is the unterminated tail -/
+theorem universal_line_shape (p : Bytes) :
+    (∃ body, (uSplit p).1 = body ++ [LF] ∧ body.any isNL = false) ∨ ((uSplit p).1 = p ∧ p.any isNL = false) := by
+  unfold uSplit
+  cases h : p.findIdx? isNL with
+  | none =>
+    right
+    refine ⟨rfl, ?_⟩
+    cases hq : p.any isNL with
+    | false => rfl
+    | true =>
+      have := List.findIdx?_isSome (xs := p) (p := isNL)
+      rw [hq, h] at this; cases this
+  | some i =>
+    left
+    obtain ⟨hlt, _, hmin⟩ := List.findIdx?_eq_some_iff_getElem.1 h
+    refine ⟨p.take i, rfl, ?_⟩
+    cases hq : (p.take i).any isNL with
+    | false => rfl
+    | true =>
+      obtain ⟨x, hx, hxx⟩ := List.any_eq_true.1 hq
+      obtain ⟨j, hj, hjx⟩ := List.getElem_of_mem hx
+      rw [List.length_take] at hj
+      have hji : j < i := by omega
+      have := hmin j hji
+      rw [List.getElem_take] at hjx
+      rw [hjx] at this
+      exact absurd hxx this
+
+/-- `list(f)` / a `for` loop in U mode: the result is a function of the pending bytes and the flag only. -/
+theorem universal_iteration_exact (u : UF Chan) (hb : 1 ≤ u.f.bufsize) (hc : u.f.closed = false) (hr : u.f.rd = true) :
+    (iterAllU chanOps u).2 = .ok (uLines (u.f.rbuf.length + u.f.s.inp.length + 2) (upend u)) ∧
+    upend (iterAllU chanOps u).1 = [] := by
+  unfold iterAllU
+  rw [if_neg (by simp [hc])]
+  have hlen : (upend u).length < linesFuel chanOps u.f := by
+    unfold upend eff linesFuel
+    simp only [chanOps_bound]
+    split
+    · simp only [List.length_tail, List.length_append]; omega
+    · simp only [List.length_append]; omega
+  obtain ⟨g1, g2, _⟩ := iterLoopU_chan (linesFuel chanOps u.f) u [] hb hc hr hlen
+  refine ⟨?_, g2⟩
+  rw [g1]; simp [linesFuel]
+
+/-- **Chunk independence in U mode.**  Two freshly opened U-mode files over the same byte stream, with ANY two
+    ways of chunking the reads, iterate to the same list of lines. -/
+theorem universal_lines_independent_of_chunking (f1 f2 : BF Chan) (inp : Bytes)
+    (h1 : f1.s.inp = inp ∧ f1.rbuf = [] ∧ 1 ≤ f1.bufsize ∧ f1.closed = false ∧ f1.rd = true)
+    (h2 : f2.s.inp = inp ∧ f2.rbuf = [] ∧ 1 ≤ f2.bufsize ∧ f2.closed = false ∧ f2.rd = true) :
+    (iterAllU chanOps { f := f1 }).2 = (iterAllU chanOps { f := f2 }).2 := by
+  obtain ⟨a1, a2, a3, a4, a5⟩ := h1
+  obtain ⟨b1, b2, b3, b4, b5⟩ := h2
+  rw [(universal_iteration_exact { f := f1 } a3 a4 a5).1, (universal_iteration_exact { f := f2 } b3 b4 b5).1]
+  simp [upend, eff, a1, a2, b1, b2]
+
+def okLines : Except Err (List Bytes) → Option (List Bytes)
+  | .ok ls => some ls
+  | .error _ => none
+
+/-- non-vacuity: the case from the field — CR is the last byte of the first chunk, the next chunk does not
+    start with LF, an empty line follows later; chunked 4 + rest and unchunked give one, two, (empty), three -/
+example :
+    let inp := "one\rtwo\n\nthree\n".toUTF8.toList
+    let f (rg : List Nat) : BF Chan := setMode { s := { inp := inp, rg := rg, wg := [] } } "rbU".toList 0 0
+    okLines (iterAllU chanOps { f := f [3] }).2
+      = some ["one\n".toUTF8.toList, "two\n".toUTF8.toList, "\n".toUTF8.toList, "three\n".toUTF8.toList] ∧
+    okLines (iterAllU chanOps { f := f [] }).2 = okLines (iterAllU chanOps { f := f [3] }).2 := by
   decide +kernel
 
 end PV.Props.C42
